@@ -212,7 +212,7 @@ def run(ctx):
     ctx.build_drv()
     quick = ctx.tier == "quick"
     if ctx.build_hx():
-        jobs = [("witness", 1, ctx.seed)]
+        jobs = [("witness", 1, ctx.seed), ("grid", 1, ctx.seed)]
         if quick:
             jobs += [("gen", 300, ctx.seed)]
         else:
@@ -256,6 +256,19 @@ def run(ctx):
         missing = [k for k in need if c.get(k, 0) == 0]
         ctx.oblige("generator reached every listed language feature (%d features)" % len(need), not missing,
                    "never generated: %s" % missing)
+        # operator x width grid: every (operator, width) cell compiled, evaluated and agreeing
+        rc_cells, cells_out = vlib.sh([ctx.hx, "grid", "-cells"], env=vlib.GOENV, timeout=60)
+        want_cells = cells_out.split() if rc_cells == 0 else []
+        got_cells = sorted(k[len("grid_"):] for k in c if k.startswith("grid_cell_"))
+        missing_cells = [k for k in want_cells if c.get("grid_" + k, 0) == 0]
+        gridcov = ctx.coverage.get("validation_grid_seed%d" % ctx.seed, {})
+        ctx.coverage["grid_cells_reached"] = got_cells
+        ctx.coverage["grid_cells"] = len(got_cells)
+        ctx.oblige("operator x width grid: all %d (operator, width) cells (mul add sub, u/s comparisons, shl ushr sshr, "
+                   "udiv umod sdiv smod smul; widths 15..130 incl. odd widths and both sides of every multiplier threshold) "
+                   "compiled with two run-time operands, evaluated on boundary + random inputs and agreeing" % len(want_cells),
+                   bool(want_cells) and not missing_cells and gridcov.get("disagreements", 1) == 0,
+                   "missing cells: %s; grid validation: %s" % (missing_cells[:20], gridcov))
         # SSA-level tie: opcodes evaluated, nothing skipped silently
         opc = {k[len("ssaop_"):]: v for k, v in c.items() if k.startswith("ssaop_")}
         ctx.coverage["ssa_opcodes_covered"] = opc
@@ -276,7 +289,7 @@ def run(ctx):
         "constant shifts incl. >= width, comparisons, && || !, casts, unary minus, variable and constant indexing, "
         "fields, calls with 1..3 results incl. nested and `return f(..)`, named results; var/:=, assignment incl. "
         "op-assign/++/--, elements and fields, if/else-if/else with early return, for loops with < <= > >= != and "
-        "steps +-1..3, nested, return inside loops; twin ifs: if/else whose branches each contain an else-less inner if assigning the same variable(s) the same constant/variable under different computed conditions, also one level deeper, with early return, mixed with other assignments; the assigned variables are folded into the results); 45% of the programs have <= 12 (thorough: <= 14/16) input bits "
+        "steps +-1..3, nested, return inside loops; twin ifs: if/else whose branches each contain an else-less inner if assigning the same variable(s) the same constant/variable under different computed conditions, also one level deeper, with early return, mixed with other assignments; the assigned variables are folded into the results); plus a fixed operator x width grid (mode `grid`): for 30 widths 15..130 (odd widths, 2^k and neighbours, both sides of every Karatsuba/array multiplier threshold) programs `a op b` with two run-time operands for * + - comparisons shifts, and for 9 widths / % signed and unsigned, on 40 (thorough 160) boundary-biased + random input pairs; 45% of the programs have <= 12 (thorough: <= 14/16) input bits "
         "and are evaluated on ALL inputs (per-program claim complete), the others on 24/48 boundary-biased tuples "
         "(0, 1, -1, min, max, min+1, -2, 0x55.., small, random per scalar component); distinct = distinct program "
         "S-expressions; ~5% of the programs are probes of the remaining known deviations (inner-block redeclaration, int->wider uint cast, signed widening of a top-bit-set constant; tagged, matched narrowly); the shapes repaired in /repo (untyped literal vs narrow signed operand, constant conversion sharing `$n`, constant on the left of an unsigned comparison, named result read before assignment) occur in ordinary programs and must agree")
